@@ -20,7 +20,7 @@ def saturating_weight(birth, pers, a=1.0):
     return a * p * p / (1.0 + p * p)
 
 
-KERNELS = ("iso-scalar", "iso-matrix", "diag", "corr", "corr-high", "uniform", "user")
+KERNELS = ("iso-scalar", "iso-matrix", "iso-ndarray", "diag", "corr", "corr-high", "uniform", "user")
 WEIGHTS = ("persistence", "persistence-n2", "linear_ramp", "ramp-zero-below", "ramp-int-params", "user", "lambda", "ramp-signed")
 BOUNDED_WEIGHTS = ("linear_ramp", "ramp-zero-below", "ramp-int-params")     # finite at infinite persistence
 
@@ -57,6 +57,8 @@ def kernel_of(cfg):
         return "gaussian", {"sigma": v}
     if k == "iso-matrix":
         return "gaussian", {"sigma": [[v, 0.0], [0.0, v]]}
+    if k == "iso-ndarray":
+        return "gaussian", {"sigma": np.array([[v, 0.0], [0.0, v]])}          # the caller's own float64 array
     if k == "diag":
         return "gaussian", {"sigma": np.array([[v, 0.0], [0.0, 2.5 * v]])}
     if k == "corr":
